@@ -276,20 +276,9 @@ def check_map(s, bag, stats, rng):
                        '        return U.a_unflatten(ia, [Tag(x, j) if flat else [Tag(x, j), Tag(x, -j - 1)] for j in range(n)])\n    return fn\n'
         bag.ev()
         st, r = U.guard(optree.tree_transpose_map, make_deep(True), t, **o)
-        # expected: inner from the first (flat) result; other results' lists stay as subtrees
-        ok = st == 'ok'
-        if ok:
-            try:
-                ra = U.absify(r, **o)
-                # compare shape: inner over outer over (leaf | 2-list)
-                exp_leaf_counts = s.n * (1 + 2 * (s.m - 1))
-                ok = U.a_num_leaves(ra) == exp_leaf_counts and U.a_same(
-                    ra, U.absify(expected_for([[Tag(x, j) if i == 0 else [Tag(x, j), Tag(x, -j - 1)] for j in range(s.n)] for i, x in enumerate(t_leaves)]), **o),
-                    entries=False)
-                ok = ok and U.same_tree(r, expected_for([[Tag(x, j) if i == 0 else [Tag(x, j), Tag(x, -j - 1)] for j in range(s.n)] for i, x in enumerate(t_leaves)]), tag_eq)
-            except Exception:   # noqa: BLE001
-                ok = False
-        if not ok:
+        # expected: inner structure from the first (flat) result; the other results' lists stay as subtrees
+        want_deep = expected_for([[Tag(x, j) if i == 0 else [Tag(x, j), Tag(x, -j - 1)] for j in range(s.n)] for i, x in enumerate(t_leaves)])
+        if st == 'exc' or not U.same_tree(r, want_deep, tag_eq):
             bag.add('C10.transpose_map', f'{s.label()}: f returns the inner shape for the first leaf and a deeper tree (2-lists at the leaves) for the others; '
                                          f'tree_transpose_map {"raised " + U.exc_name(r) if st == "exc" else "= " + repr(r)}; expected the lists kept as subtrees',
                     dhead + 'r = outcome(lambda: optree.tree_transpose_map(make_deep(True), t, **o))\nprint(r)\n'
@@ -370,6 +359,10 @@ def run(tier: str, seed: int) -> BoundedReport:
     for _ in range(300 if quick else 6000):
         od, idd = rng.choice(by_shape[rng.choice(shapes)]), rng.choice(by_shape[rng.choice(shapes)])
         one(od, idd, rng.choice(opts_pred), errors=False, maps=rng.random() < 0.3)
+
+    bag.sample(f'is_leaf predicates: {[p.__name__ for p in S.PREDICATES[1:]]} on sampled shape pairs; map variants: inner from first result, inner_treespec given, '
+               f'one rest, with_path, with_accessor, deeper later results, deeper first result (rejected), leafless results (rejected)')
+    bag.sample(f'rejected inputs: leafless outer/inner, {{(T, extra leaf), bare outer, one inner}} as wrong leaf counts, none_is_leaf mismatch, namespaces {U.NS!r} vs {U.NS2!r}')
 
     # 4. conflicting namespaces: outer recorded in NS (customN node), inner recorded in NS2 (customM node)
     nsc = 0
